@@ -364,7 +364,44 @@ def po_uni_swap(S):
         S.check("VALUE:rejected=>unchanged", S.eq(v1, v0))
 
 
-@proof("C03", "uniswap/add(new-position),remove,collect:conserve-value", strength="S", shapes=UNI_OPS, contracts=UNI_CONTRACTS, config={"max_seconds": 600})
+def get_amounts_linear_contract(interp, args, kwargs):
+    """CONTRACT of liquitidy_math.get_amounts(s, tickA, tickB, L, d0, d1) in the form value conservation needs:
+       amounts == L x (unit amounts of (s, tickA, tickB)), unit amounts >= 0  (C07 get_amounts/linear-in-liquidity, /non-negative)"""
+    import z3
+    from pyvc.sym import SV, DEC, lift, as_real_term
+    from .c14 import _as_int
+    p = interp.path
+    sq, ta, tb, liq = args[0], args[1], args[2], args[3]
+    u0 = p.uf("uni_unit_amount0", z3.IntSort(), z3.IntSort(), z3.IntSort(), z3.RealSort())
+    u1 = p.uf("uni_unit_amount1", z3.IntSort(), z3.IntSort(), z3.IntSort(), z3.RealSort())
+    a = [_as_int(x) for x in (sq, ta, tb)]
+    r0, r1 = u0(*a), u1(*a)
+    p.assume(z3.And(r0 >= 0, r1 >= 0), "contract get_amounts: amounts == liquidity x non-negative unit amounts of (sqrt price, ticks) (C07 linear-in-liquidity)")
+    L = as_real_term(lift(liq))
+    return SV(L * r0, DEC), SV(L * r1, DEC)
+
+
+def _uni_linear():
+    import demeter.uniswap.core as core
+    d = dict(UNI_CONTRACTS)
+    d[core.get_amounts] = get_amounts_linear_contract
+    return d
+
+
+UNI_LINEAR = _uni_linear()
+
+
+@spec
+def uni_reported(w, q0):
+    """the net value the account REPORTS for wallet + this market (get_market_balance is the code under test here, not the oracle)"""
+    m = w.market
+    price = m._market_status.data.price
+    t0b, t1b = w.broker._assets[w.pool.token0].balance, w.broker._assets[w.pool.token1].balance
+    base, quote = (t1b, t0b) if q0 else (t0b, t1b)
+    return base * price + quote + m.get_market_balance().net_value
+
+
+@proof("C03", "uniswap/add(new-position),remove,collect:conserve-value", strength="S", shapes=UNI_OPS, contracts=UNI_LINEAR, config={"max_seconds": 600})
 def po_uni_lp(S):
     q0 = S.shape["q0"]
     w = uni_at_bar(uni_world(S, 6, 18, q0, 1, 0.05))
@@ -373,6 +410,7 @@ def po_uni_lp(S):
     key = w.pos_keys[0]
     L0, p00, p10 = m._positions[key].liquidity, m._positions[key].pending_amount0, m._positions[key].pending_amount1
     v0 = uni_value(w, q0)
+    r0 = uni_reported(w, q0)
     touched = w.broker._assets[w.pool.token0].balance * (1 if q0 else price) + w.broker._assets[w.pool.token1].balance * (price if q0 else 1)
     which = S.int("which_operation", 0, 2)
     try:
@@ -387,9 +425,10 @@ def po_uni_lp(S):
     S.check("NONNEG:wallet,liquidity,pending", all_nonneg(uni_amounts(w)))
     v1 = uni_value(w, q0)
     slack = touched * WALLET_DUST
-    if which != 1:
-        # removing part of a position relies on get_amounts being additive in the liquidity (C07, up to a wei): not restated here
-        S.check("VALUE:conserved(mod-wallet-dust)", S.le(v1, v0 + slack) and S.le(v0 - slack, v1))
+    # removing part of a position relies on get_amounts being linear in the liquidity: the callee contract says so (C07)
+    S.check("VALUE:conserved(mod-wallet-dust)", S.le(v1, v0 + slack) and S.le(v0 - slack, v1))
+    r1 = uni_reported(w, q0)
+    S.check("REPORTED-net-value:conserved(mod-wallet-dust)", S.le(r1, r0 + slack) and S.le(r0 - slack, r1))
     if key in m._positions:
         S.check("HELD:removed<=held", m._positions[key].liquidity <= L0 or which == 0)
 
